@@ -14,7 +14,8 @@ MKINDS = ['non-trashinfo-file', 'non-trashinfo-dir', 'empty', 'truncated',
           'only-header', 'nul-bytes', 'huge-line', 'path-empty',
           'dangling-link-info', 'link-to-dir-info', 'loop-link-info',
           'link-to-good-info', 'long-name-payload-without-info',
-          'long-name-payload-without-info', 'payload-is-fifo']
+          'long-name-payload-without-info', 'payload-is-fifo',
+          'unreadable-info', 'unremovable-payload']
 CMDS = ['list', 'restore-list', 'restore-each', 'rm', 'empty-days', 'empty']
 
 
@@ -109,6 +110,14 @@ def malformed_nodes(rng, t, kind, j, index, same_as=None):
             n2 = n2[:-1]
         return [{'p': '%s/files/%s' % (base, n2), 't': rng.choice(['f', 'd']),
                  **({'c': 'long orphan'} if False else {})}]
+    if kind == 'unreadable-info':
+        # mode 000: bites because the case runs without CAP_DAC_OVERRIDE
+        return [{'p': ip, 't': 'f', 'c': good, 'm': 0o000}, pay]
+    if kind == 'unremovable-payload':
+        return [{'p': ip, 't': 'f', 'c': good},
+                {'p': pp, 't': 'd', 'm': 0o755},
+                {'p': pp + '/locked', 't': 'd', 'm': 0o000},
+                {'p': pp + '/locked/inside', 't': 'f', 'c': 'x'}]
     if kind == 'payload-is-fifo':
         return [{'p': ip, 't': 'f', 'c': good}, {'p': pp, 't': 'p'}]
     if kind == 'path-empty':
@@ -141,6 +150,8 @@ def gen_case(rng, index, tier):
         mk.append(kind_l)
     case = L.desc()
     case['nodes_g'] = base_nodes
+    if 'unreadable-info' in mk or 'unremovable-payload' in mk:
+        case['drop_caps'] = True
     case['entries'] = entries
     case['mkinds'] = mk
     case['cmd'] = rng.choice(CMDS)
@@ -223,6 +234,8 @@ def run_case(case):
     obs = out['obs']
     dG = dict(case)
     dG = {k: case[k] for k in ('mounts', 'uid', 'env', 'cwd')}
+    if case.get('drop_caps'):
+        dG['drop_caps'] = True
     dG['nodes'] = case['nodes_g']
     a = observe(case, dG, False)
     b = observe(case, case, True)
